@@ -1,4 +1,5 @@
 import EncodingRs.Lemmas.ConformEncFam
+import EncodingRs.Lemmas.ConformEncSrc
 import EncodingRs.Lemmas.ConformEncSym
 import EncodingRs.Lemmas.ConformEncSb
 import EncodingRs.Lemmas.ConformEncBig5
@@ -194,5 +195,154 @@ theorem encode_conforms (e : Gen.EncodingInit) (he : e ∈ Gen.encodings) (text 
   refine ⟨E, hE, ?_, ?_⟩
   · rw [← hinit]; exact eref_runs_report _ E φ hc text _ ht
   · rw [← hinit]; exact erefHtml_runs_html _ E φ hc text _ ht
+
+/-- `Runs` determines the output: any two runs over the same queue from the same state agree, so
+`encode_conforms` says that the model's output IS the Standard's output -/
+theorem runs_deterministic {E : Encoder} {mode : Mode} {s : E.σ} {q : List Nat} {o1 o2 : List Ev}
+    (h1 : Runs E mode s q o1) (h2 : Runs E mode s q o2) : o1 = o2 :=
+  runs_unique h1 h2
+
+/-- the executable run used by the driver (`Spec.Encode.run`, `Spec.Encode.encode`) computes `Runs` -/
+theorem spec_run_sound (E : Encoder) (mode : Mode) (fuel : Nat) (s : E.σ) (q : List Nat) (out : List Ev)
+    (h : Spec.Encode.run E mode fuel s q = some out) : Runs E mode s q out :=
+  run_sound E mode fuel s q out h
+
+/-- hence: whenever the executable Standard encoder answers, it answers what the model's reference
+run with numeric character references writes (this is what the `specenc` correspondence compares
+with the real crate) -/
+theorem spec_encode_eq_model (e : Gen.EncodingInit) (he : e ∈ Gen.encodings) (text : List Nat)
+    (ht : ∀ c ∈ text, c < 0x110000) (bytes : List Nat)
+    (h : Spec.Encode.encode e.name text = some bytes) :
+    bytes = erefHtml (efamOfVariant e.variant) (efamOfVariant e.variant).init text := by
+  have ⟨E, hE, _, hhtml⟩ := encode_conforms e he text ht
+  unfold Spec.Encode.encode at h
+  rw [hE] at h
+  simp only at h
+  cases hr : Spec.Encode.run E .html (fuelFor text.length) E.init text with
+  | none => rw [hr] at h; cases h
+  | some out =>
+    rw [hr] at h
+    have hb : bytes = bytesOf out := by simpa using h.symm
+    have := runs_unique (run_sound E .html _ _ _ out hr) hhtml
+    rw [hb, this]
+    generalize erefHtml (efamOfVariant e.variant) (efamOfVariant e.variant).init text = l
+    induction l with
+    | nil => rfl
+    | cons a t ih => simp only [List.map_cons, bytesOf]; rw [ih]
+
+/-- `eref` is what the raw API yields: a call with `last = true` that nothing stops
+(`erun … .unlimited`, text as items of width 1) either consumes everything and wrote `eref`, or
+stops at the first `Unmappable(u)` having consumed `read ≥ 1` characters, and `eref` continues with
+the remaining text from the state the call left -/
+theorem eref_is_raw_api (F : EFam) (text : List Nat) (s : F.σ) :
+    match (erun F true s (text.map fun c => (c, 1)) .unlimited).res with
+    | .inputEmpty =>
+      eref F s text = (erun F true s (text.map fun c => (c, 1)) .unlimited).out.map Ev.byte
+        ∧ (erun F true s (text.map fun c => (c, 1)) .unlimited).read = text.length
+    | .unmappable u =>
+      0 < (erun F true s (text.map fun c => (c, 1)) .unlimited).read
+        ∧ (erun F true s (text.map fun c => (c, 1)) .unlimited).read ≤ text.length
+        ∧ eref F s text = (erun F true s (text.map fun c => (c, 1)) .unlimited).out.map Ev.byte
+            ++ (Ev.error u :: eref F (erun F true s (text.map fun c => (c, 1)) .unlimited).st
+                  (text.drop (erun F true s (text.map fun c => (c, 1)) .unlimited).read))
+    | .outputFull => False :=
+  eref_erun F text s
+
+/-! ## (c) the sources -/
+
+/-- `Utf16Source`: the characters read from ANY list of UTF-16 code units are the scalar values of
+the lossy decoding (surrogate pair ↦ astral scalar value, every unpaired surrogate ↦ U+FFFD) -/
+theorem utf16_source_reads (units : List Nat) :
+    (items16 units).map (·.1) = scalarValuesOfUtf16 units :=
+  itemsOf_read16 units.length units (Nat.le_refl _)
+
+/-- `Utf8Source` on the UTF-8 form of a text of scalar values reads the text back, each character
+with its width in bytes -/
+theorem utf8_source_reads (text : List Nat) (ht : ∀ c ∈ text, c < 0x110000) :
+    items8 (Spec.Conv.utf8EncodeAll text) = text.map fun c => (c, Spec.Conv.utf8Len c) :=
+  itemsOf_read8 text _ (utf8EncodeAll_length_ge text) ht
+
+/-- the model's `encodeUtf8` is the UTF-8 form of Unicode Table 3-6 -/
+theorem encodeUtf8_eq (c : Nat) : encodeUtf8 c = Spec.Conv.utf8Encode c := rfl
+
+/-! ## (d) numeric character references -/
+
+/-- `write_ncr`: `&#`, the decimal digits of the code point, `;` -/
+theorem ncr_decimal (c : Nat) (hc : c < 0x110000) :
+    Model.ncr c = [0x26, 0x23] ++ Spec.Encode.decimalDigits c ++ [0x3B] :=
+  Lemmas.ConformEnc.ncr_decimal c hc
+
+/-- `Spec.Encode.decimalDigits n` is the shortest sequence of ASCII digits representing `n` in base
+ten: ASCII digits, value `n`, non-empty, no leading zero for `n > 0` -/
+theorem decimalDigits_shortest (n : Nat) :
+    (∀ d ∈ Spec.Encode.decimalDigits n, 0x30 ≤ d ∧ d ≤ 0x39)
+      ∧ valueOfDigits (Spec.Encode.decimalDigits n) = n
+      ∧ (Spec.Encode.decimalDigits n).head? ≠ none
+      ∧ (0 < n → (Spec.Encode.decimalDigits n).head? ≠ some 0x30) :=
+  decimalDigits_spec n
+
+/- PENDING: `encRepl_html` — the with-replacement wrapper `Model.encRepl` (lib.rs `encode_from_utf8` /
+   `encode_from_utf16`, with its `NCR_EXTRA` capacity arithmetic and `total_read` bookkeeping over the
+   source buffer), when no `OutputFull` occurs, writes `erefHtml`:
+
+     theorem encRepl_html (e ∈ Gen.encodings) (utf16 : Bool) (units : List Nat) (cap fuel : Nat) (r) :
+       encRepl (efamOfVariant e.variant) canAll Gen.ncrExtra utf16 true cap fuel init units [] = some r →
+       r.res = .inputEmpty →
+       r.out = erefHtml (efamOfVariant e.variant) init (((if utf16 then items16 units else items8 units)).map (·.1))
+
+   Proved so far (`…_partial`): the text-level statement with the replacement applied per report —
+   `encode_conforms` (second conjunct: `erefHtml` is the Standard's "html" run), `eref_is_raw_api`
+   (`eref`/`erefHtml` follow the raw calls `erun … .unlimited`) and `ncr_decimal`.  Missing: the
+   induction over `encRepl.go` relating `items (src.drop total_read)` to `(items src).drop k`
+   (width bookkeeping of the two sources).  The wrapper itself is tied to the code by the `enc`
+   correspondence (harness/src/enc.rs, with-replacement histories) and, end to end against the
+   Standard, by the `specenc` correspondence. -/
+
+/-- `encRepl_html_partial`: numeric character references per report, at the level of characters -/
+theorem encRepl_html_partial (e : Gen.EncodingInit) (he : e ∈ Gen.encodings) (text : List Nat)
+    (ht : ∀ c ∈ text, c < 0x110000) :
+    ∃ E : Encoder, encoderOfName (outputEncodingName e.name) = some E
+      ∧ Runs E .html E.init text
+          ((erefHtml (efamOfVariant e.variant) (efamOfVariant e.variant).init text).map Ev.byte) :=
+  have ⟨E, hE, _, h⟩ := encode_conforms e he text ht
+  ⟨E, hE, h⟩
+
+/-! ## (e) output encodings -/
+
+/-- UTF-16BE, UTF-16LE and replacement encode as UTF-8 -/
+theorem output_encoding_utf8 :
+    efamOfVariant .utf16Be = utf8EFam ∧ efamOfVariant .utf16Le = utf8EFam
+      ∧ efamOfVariant .replacement = utf8EFam ∧ efamOfVariant .utf8 = utf8EFam
+      ∧ outputEncodingName "UTF-16BE" = "UTF-8" ∧ outputEncodingName "UTF-16LE" = "UTF-8"
+      ∧ outputEncodingName "replacement" = "UTF-8" :=
+  ⟨rfl, rfl, rfl, rfl, by decide, by decide, by decide⟩
+
+/-- the UTF-8 encoder never reports an unmappable character and hands nothing back -/
+theorem utf8_never_unmappable (c : Nat) :
+    (utf8EFam.step () c).unmappable = none ∧ (utf8EFam.step () c).unread = false
+      ∧ (utf8EFam.step () c).out = Spec.Conv.utf8Encode c :=
+  ⟨rfl, rfl, rfl⟩
+
+/-- and so does the Standard's: the UTF-8 encoder has no "return error" -/
+theorem spec_utf8_never_error (c : Nat) : utf8 c = .bytes (Spec.Conv.utf8Encode c) := by
+  rw [utf8_conforms c]; rfl
+
+/-! ## non-vacuity -/
+
+/-- Big5: U+5341 takes the LAST pointer (0xA451), U+5345 too; a code point whose only pointers are
+below (0xA1−0x81)·157 is an error (U+43F0, pointer 942) -/
+example : big5With big5PtrFast 0x5341 = .bytes [0xA4, 0x51] := by native_decide
+example : big5EncodeChar 0x5341 = some [0xA4, 0x51] := by native_decide
+/-- ISO-2022-JP in the Standard: U+00A5 switches to Roman, a following `\` returns to ASCII first -/
+example : specChain iso2022JpHandler 3 .ascii 0xA5 = some ([0x1B, 0x28, 0x4A, 0x5C], none, .roman) := by
+  rw [iso_handler_eq]; native_decide
+example : Spec.Encode.decimalDigits 65533 = [0x36, 0x35, 0x35, 0x33, 0x33] := by
+  simp [Spec.Encode.decimalDigits]
+example : Model.ncr 0x10FFFF = [0x26, 0x23, 0x31, 0x31, 0x31, 0x34, 0x31, 0x31, 0x31, 0x3B] := by decide
+example : scalarValuesOfUtf16 [0x41, 0xD800, 0xD83D, 0xDE00, 0xDC00] = [0x41, 0xFFFD, 0x1F600, 0xFFFD] := by decide
+example : outputEncodingName "UTF-16LE" = "UTF-8" ∧ (encoderOfName "replacement").isNone = true := by
+  constructor <;> decide
+/-- GBK reports what gb18030 writes in four bytes; U+E5E5 is an error for both; U+E7C7 ↦ pointer 7457 -/
+example : indexGb18030RangesPointer 0xE7C7 = 7457 := by decide
 
 end EncodingRs.Thm.C03
